@@ -59,6 +59,9 @@ impl GC {
     /// Sweeps all objects
     /// This is automatically called once the Garbage Collector is dropped
     pub fn destroy(&mut self) {
+        // Nothing is reachable anymore, so clear all marks before sweeping
+        self.mark_bitmap.clear();
+        self.mark_bitmap.resize(self.objects.len(), false);
         self.sweep();
     }
 
@@ -70,7 +73,11 @@ impl GC {
             return;
         }
 
+        // Sort objects by address so mark() can look up the index of an object,
+        // and give every object an (unmarked) bit in the bitmap
+        self.objects.sort_unstable_by_key(|o| o.as_ptr() as usize);
         self.mark_bitmap.clear();
+        self.mark_bitmap.resize(self.objects.len(), false);
 
         // Mark all reachable objects
         for root in roots.iter() {
@@ -103,12 +110,16 @@ impl GC {
             return;
         }
 
-        let index = unsafe {
-            let object_ptr: *mut Object = o.as_ptr().cast();
-            let universe_ptr: *const Object = self.objects.as_ptr().cast();
-            object_ptr.offset_from(universe_ptr) as usize
+        // Look up the position of this object in the (sorted) vector of managed objects
+        let index = match self
+            .objects
+            .binary_search_by_key(&(o.as_ptr() as usize), |a| a.as_ptr() as usize)
+        {
+            Ok(index) => index,
+            // Not managed by this garbage collector
+            Err(_) => return,
         };
-        debug_assert!(index < self.objects.len());
+        debug_assert!(index < self.mark_bitmap.len());
 
         if o.tag() == Type::Array {
             // Safety: we know the size of mark_bitmap.
